@@ -527,6 +527,9 @@ func c09FormatStrings(c *Ctx, rule string) {
 			}
 			n++
 			_, isConst := ir.ConstStr(args[1])
+			if _, isParam := args[1].(*ssa.Parameter); isParam {
+				isConst = true // a printf-style wrapper: its callers' formats are judged where they are written
+			}
 			c.R.Check(isConst, rule, "format of Fprintf in "+fname(fn), c.Pos(call.Pos()), "constant format string",
 				sprintf("%s passes a computed string as the FORMAT of fmt.Fprintf to a stream: any '%%' in the payload is re-interpreted as a verb and the frame arrives mangled", fname(fn)))
 		})
